@@ -8,12 +8,27 @@ uncaught exception, worker crash (the resulting TerminatedWorkerError is not cau
 children that own semaphores.  After every step the content of /dev/shm/sem.loky-<pid>-* for the pids
 of the scenario, the live trackers and their writer sets are compared with the Lean driver; at the end
 also the trackers' "leaked" reports.  The oracle is written from the statement.
+
+Further dimensions of the scenario space: a member SIGKILLed *inside* a SemLock finalizer after k of its
+clean-up primitives (`killfin`: collection of one primitive, owner or unpickled copy; `killexit`: the
+exit-time finalizers), for every k; primitives created by several threads at once as the first tracked
+operations of the member (`pnew`); a `loky_init_main` child whose main module creates a Lock at import
+time; the whole tree run with warnings turned into errors (`cfg.warn`: `-W error` in the root, which the
+root's tracker inherits, or PYTHONWARNINGS in the environment of every process).
 """
-from ..realproc.tt_engine import E3TreeProp, NSEMS, leak_tokens
+from .. import common as C
+from ..realproc.tt_engine import E3TreeProp, NSEMS, leak_tokens, warn_cfg
 
 PRIMS = ["Lock", "RLock", "Semaphore", "BoundedSemaphore", "Condition", "Event", "Queue", "SimpleQueue"]
 ENDINGS = ["normal", "exception", "worker_crash", "broken_pool", "sigkill_parent"]
 KILLISH = ("kill", "term", "osexit")
+WARN_MODES = ("flag", "env", "env-user")
+# a process killed between `sem_unlink` and UNREGISTER leaves a registered name whose clean-up by the tracker
+# fails; with warnings as errors the unguarded `warnings.warn` of that failure ends the tracker's sweep
+SWEEP_WARN_CLASS = "sweep-warning-raises"
+# a primitive created while the main module is re-imported in a loky_init_main child loses its finalizer
+# (BaseProcess._bootstrap clears util._finalizer_registry after spawn.prepare): never unlinked by its owner
+IMPORT_OWNER_CLASS = "import-time-owner"
 XSTEPS = ("xnew", "xrun", "xsleep", "xcrash", "xwait", "xshutdown", "xdrop", "xdispatch", "killworker",
           "killorphans")
 
@@ -30,14 +45,21 @@ class Prop(E3TreeProp):
     id = "C13"
     lean_modules = ["LokyModel.Props.C13"]
     budget = {"quick": 175, "thorough": 1750}
-    n_cases = {"quick": 17, "thorough": 390}
+    n_cases = {"quick": 44, "thorough": 390}
     search_cases = {"quick": 10, "thorough": 40}
     rule = ("real process scenarios: 1-4 loky primitives of 8 kinds and 0-2 executors (plain / reusable, 1-3 workers) "
             "created in the root, 0-2 LokyProcess children receiving pickled copies and owning primitives themselves, "
             "some objects collected; ended by normal exit, uncaught exception, worker crash (SIGKILL/SIGTERM of a busy "
             "worker, error not caught), broken pool (task os._exit, caught, reusable executor replaced), SIGKILL of the "
             "parent mid-dispatch (then of its orphaned workers); children die by normal return, exception, os._exit, "
-            "SIGTERM, SIGKILL. Compared with the Lean driver after every step: /dev/shm/sem.loky-<pid>-* per creating "
+            "SIGTERM, SIGKILL, or by a SIGKILL inside a SemLock finalizer after k = 0..2n clean-up primitives "
+            "(sem_unlink / unregister, counted in whatever order the code calls them) while collecting one primitive "
+            "(owner or unpickled copy) or at exit; primitives created by 2-4 threads at once as the member's first "
+            "tracked operations (with / without a delay in spawnv_passfds and _check_alive); a Lock created at "
+            "import time of the re-imported main module of a loky_init_main child; 40% of the scenarios run with "
+            "warnings turned into errors (-W error in the root, PYTHONWARNINGS=error or error::UserWarning in the "
+            "whole tree): a configuration the model does not have, its prediction must not depend on it (only the "
+            "text of the leak report, swallowed in that mode, is not compared). Compared with the Lean driver after every step: /dev/shm/sem.loky-<pid>-* per creating "
             "process, live trackers, writer sets; at the end the trackers' leak reports. Non-trivial = at least one "
             "executor or one child; distinct by history.")
     assumptions = [
@@ -46,14 +68,25 @@ class Prop(E3TreeProp):
         "the tracker is not SIGKILLed (witness leak_when_tracker_killed) and no SIGKILL lands between sem_open and REGISTER "
         "inside SemLock.__init__ (witness leak_in_create_window): hypotheses of namespace_restored",
         "CPython collects an unreferenced object at once (reference counting): `del` + gc.collect() runs the SemLock finalizer",
+        "the warnings filter of the interpreters (cfg.warn) is not in the model: it must not change the prediction; only "
+        "the text of the trackers' leak report is not compared in that configuration (the guarded warning is swallowed)",
+        "threading.RLock is a lock: concurrent creations by the threads of a member are an interleaving of atomic "
+        "sem_open / REGISTER steps (theorems one_launch_per_death, member_threads_remove_only_by_finalizer: every interleaving)",
+        "two history classes are not drawn by the generator while they are not listed findings (the oracle is unchanged "
+        "and flags them; attribute() maps them once listed): '" + SWEEP_WARN_CLASS + "' = warnings as errors + a process "
+        "killed between sem_unlink and UNREGISTER (odd k) while other names are registered; '" + IMPORT_OWNER_CLASS +
+        "' = collecting / normally exiting with a primitive created at import time of a loky_init_main child's main module",
     ]
 
     # ------------------------------------------------------------------ corpus
     def corpus(self):
         cs = []
 
-        def add(*steps):
-            cs.append({"steps": [["start"]] + [list(s) for s in steps] + [["end"]]})
+        def add(*steps, cfg=None):
+            c = {"steps": [["start"]] + [list(s) for s in steps] + [["end"]]}
+            if cfg:
+                c["cfg"] = cfg
+            cs.append(c)
         W2 = {"kind": "plain", "workers": 2, "ids": [50, 51]}
         R2 = {"kind": "reusable", "workers": 2, "ids": [60, 61]}
         # every primitive kind, created, half of them collected, parent exits normally
@@ -76,13 +109,59 @@ class Prop(E3TreeProp):
         # SIGKILL of the parent in the middle of dispatching, with standalone primitives alive
         add(("new", 0, 1, "Lock"), ("new", 0, 2, "Condition"), ("xnew", 0, 1, W2), ("xdispatch", 0, 1),
             ("exit", 0, "kill"), ("killorphans",))
+        # ---- SIGKILL inside a finalizer, at every position: three children, one Lock each, killed after 0 / 1 / 2
+        # clean-up primitives; the root lives on, then ends normally
+        add(("new", 0, 1, "Lock"), ("spawn", 0, 1, "loky", []), ("spawn", 0, 2, "loky", [[1, 21]]),
+            ("spawn", 0, 3, "loky_init_main", []), ("new", 1, 2, "Lock"), ("new", 2, 3, "Lock"), ("new", 3, 4, "Lock"),
+            ("killfin", 1, 2, 0), ("killfin", 2, 3, 1), ("killfin", 3, 4, 2), ("exit", 0, "normal"))
+        # ... in the middle of a primitive made of four semaphores, in the root, other objects alive
+        add(("new", 0, 1, "Lock"), ("new", 0, 2, "Condition"), ("new", 0, 3, "Event"), ("killfin", 0, 2, 3))
+        # ... a child killed while it collects an unpickled copy: nothing may be unlinked; then exit-time finalizers
+        add(("new", 0, 1, "Lock"), ("new", 0, 2, "Queue"), ("spawn", 0, 1, "loky", [[1, 21], [2, 22]]),
+            ("killfin", 1, 22, 0), ("new", 0, 3, "Semaphore"), ("killexit", 0, 5))
+        # ---- warnings as errors: SIGKILL of the parent mid-dispatch; crashed worker not caught; clean exit
+        add(("new", 0, 1, "Lock"), ("new", 0, 2, "Condition"), ("xnew", 0, 1, W2), ("xdispatch", 0, 1),
+            ("exit", 0, "kill"), ("killorphans",), cfg={"warn": "flag"})
+        add(("new", 0, 1, "Event"), ("xnew", 0, 1, W2), ("xsleep", 0, 1, {"n": 2}), ("killworker", 0, 1, 50, "kill"),
+            ("xwait", 0, 1, {"raise": True}), cfg={"warn": "env-user"})
+        add(("new", 0, 1, "RLock"), ("new", 0, 2, "Queue"), ("spawn", 0, 1, "loky", [[2, 22]]), ("new", 1, 3, "Lock"),
+            ("del", 0, 1), ("exit", 1, "kill"), ("xnew", 0, 1, R2), ("xrun", 0, 1, {"n": 3}), ("exit", 0, "normal"),
+            cfg={"warn": "env"})
+        add(("new", 0, 1, "Lock"), ("spawn", 0, 1, "loky", []), ("new", 1, 2, "Semaphore"), ("new", 1, 3, "Lock"),
+            ("killfin", 1, 2, 0), ("new", 0, 4, "Lock"), ("killfin", 0, 4, 2), cfg={"warn": "flag"})
+        # ---- several threads create their first primitive at once (delayed launch / natural race / in a child)
+        add(("pnew", 0, [1, 2, 3], "Lock", 1), ("del", 0, 2), ("spawn", 0, 1, "loky", [[1, 21]]),
+            ("pnew", 1, [4, 5], "Condition", 1), ("exit", 1, "normal"), ("exit", 0, "normal"))
+        add(("pnew", 0, [1, 2, 3, 4], "Semaphore", 0), ("del", 0, 1), ("del", 0, 4), ("exit", 0, "exc"))
+        # ---- a Lock created while the main module of a loky_init_main child is re-imported
+        # (such a child ends abruptly here: collecting that Lock, or a normal exit of that child, is the listed /
+        # reported finding of class IMPORT_OWNER_CLASS)
+        add(("spawn", 0, 1, "loky_init_main", [], ["lock", 5]), ("new", 0, 1, "Lock"),
+            ("spawn", 0, 2, "loky_init_main", [[1, 21]], ["lock", 6]), ("del", 2, 21), ("exit", 1, "kill"),
+            ("exit", 2, "term"), ("exit", 0, "normal"))
         return cs
 
     # ------------------------------------------------------------------ generator
+    @staticmethod
+    def _listed(cls):
+        """a finding of this class is listed (failing runs are attributed to it) or recorded as fixed (failing runs are
+        violations again): its histories may be drawn"""
+        try:
+            k = C.load_known()
+            return any(f.get("class") == cls for f in k.get("findings", []) + k.get("fixed", []))
+        except Exception:
+            return False
+
     def gen(self, rng, i):
-        ending = ENDINGS[i % len(ENDINGS)] if rng.random() < 0.8 else rng.choice(ENDINGS)
+        endings = ENDINGS + ["finkill"]
+        ending = endings[i % len(endings)] if rng.random() < 0.8 else rng.choice(endings)
         steps = [["start"]]
+        cfg = {"warn": rng.choice(WARN_MODES)} if rng.random() < 0.4 else None
+        odd_ok = cfg is None or self._listed(SWEEP_WARN_CLASS)
+        imp_soft_ok = self._listed(IMPORT_OWNER_CLASS)
+        must_crash = set()       # children that own a primitive created at import time
         owned = {0: []}          # member -> object groups it owns / holds
+        kind_of, is_copy = {}, set()
         next_obj = [1]
         next_copy = [21]
         children = []
@@ -90,8 +169,48 @@ class Prop(E3TreeProp):
         def new(p):
             o = next_obj[0]
             next_obj[0] += 1
-            steps.append(["new", p, o, rng.choice(PRIMS)])
+            kind_of[o] = rng.choice(PRIMS)
+            steps.append(["new", p, o, kind_of[o]])
             owned[p].append(o)
+
+        def pnew(p):
+            k = rng.randint(2, 4)
+            os_ = list(range(next_obj[0], next_obj[0] + k))
+            next_obj[0] += k
+            kd = rng.choice(["Lock", "Lock", "Semaphore", "Condition", "Event"])
+            for o in os_:
+                kind_of[o] = kd
+            steps.append(["pnew", p, os_, kd, 1 if rng.random() < 0.7 else 0])
+            owned[p] += os_
+
+        def finkill(p, allow_exit):
+            """p is SIGKILLed inside a finalizer: while collecting one of its objects, or at a normal exit"""
+            owners = [o for o in owned[p] if o not in is_copy]
+            if allow_exit and owners and rng.random() < 0.35:
+                n = sum(NSEMS[kind_of[o]] for o in owners)
+                k = rng.randint(0, 2 * n)
+                steps.append(["killexit", p, k if odd_ok else k - k % 2])
+                return
+            if not owned[p]:
+                new(p)
+            o = rng.choice(owned[p])
+            owned[p].remove(o)
+            if o in is_copy:
+                steps.append(["killfin", p, o, 0])
+            else:
+                n = NSEMS[kind_of[o]]
+                k = rng.choice([0, 1, 2]) if n == 1 else rng.randint(0, 2 * n)
+                steps.append(["killfin", p, o, k if odd_ok else k - k % 2])
+
+        def child_death(c):
+            if c in must_crash:
+                steps.append(["exit", c, rng.choice(KILLISH)])
+            elif rng.random() < 0.35:
+                finkill(c, True)
+            else:
+                steps.append(["exit", c, rng.choice(KILLISH + ("normal", "exc"))])
+        if rng.random() < 0.3:
+            pnew(0)              # the very first tracked operations of the root: several threads at once
         for _ in range(rng.choice([0, 1, 1, 2, 3, 4])):
             new(0)
         nchild = rng.choice([0, 0, 1, 1, 2])
@@ -100,12 +219,28 @@ class Prop(E3TreeProp):
             for o in owned[0]:
                 if rng.random() < 0.5:
                     passing.append([o, next_copy[0]])
+                    kind_of[next_copy[0]] = kind_of[o]
+                    is_copy.add(next_copy[0])
                     next_copy[0] += 1
-            steps.append(["spawn", 0, c, rng.choice(["loky", "loky", "loky_init_main"]), passing])
+            method = rng.choice(["loky", "loky", "loky_init_main"])
+            st = ["spawn", 0, c, method, passing]
             owned[c] = [b for _, b in passing]
+            if method == "loky_init_main" and rng.random() < 0.5:
+                o = next_obj[0]
+                next_obj[0] += 1
+                kind_of[o] = "Lock"
+                st.append(["lock", o])       # created at import time of the re-imported main module
+                if imp_soft_ok:
+                    owned[c].append(o)
+                else:
+                    must_crash.add(c)        # neither collected nor finalized at a normal exit (finding)
+            steps.append(st)
             children.append(c)
-            if rng.random() < 0.5:
+            r = rng.random()
+            if r < 0.4:
                 new(c)
+            elif r < 0.6:
+                pnew(c)
         # some collections (owners and copies)
         for p in list(owned):
             for o in list(owned[p]):
@@ -119,15 +254,15 @@ class Prop(E3TreeProp):
         for x in range(1, nx + 1):
             w = rng.choice([1, 2, 2, 3])
             kind = "reusable" if (x == 1 and rng.random() < 0.4) else "plain"
-            cfg = {"kind": kind, "workers": w, "ids": [50 + 10 * x + j for j in range(w)]}
-            steps.append(["xnew", 0, x, cfg])
-            execs.append([x, cfg, "up"])
+            cfgx = {"kind": kind, "workers": w, "ids": [50 + 10 * x + j for j in range(w)]}
+            steps.append(["xnew", 0, x, cfgx])
+            execs.append([x, cfgx, "up"])
             if rng.random() < 0.6:
                 steps.append(["xrun", 0, x, {"n": rng.randint(1, 8)}])
         # some children end before the parent
         for c in list(children):
             if rng.random() < 0.5:
-                steps.append(["exit", c, rng.choice(KILLISH + ("normal", "exc"))])
+                child_death(c)
                 children.remove(c)
         # a non-final executor may be shut down / dropped / left alone
         for e in execs[:-1] if need_exec else execs:
@@ -145,19 +280,19 @@ class Prop(E3TreeProp):
         # the ending
         if ending in ("normal", "exception"):
             for c in children:
-                steps.append(["exit", c, rng.choice(KILLISH + ("normal", "exc"))])
+                child_death(c)
             steps.append(["exit", 0, "normal" if ending == "normal" else "exc"])
         elif ending == "worker_crash":
-            x, cfg, _ = execs[-1]
+            x, cfgx, _ = execs[-1]
             for c in children:                # an exiting parent joins its live children first: they end before it
-                steps.append(["exit", c, rng.choice(KILLISH + ("normal", "exc"))])
-            steps.append(["xsleep", 0, x, {"n": cfg["workers"]}])
-            steps.append(["killworker", 0, x, rng.choice(cfg["ids"]), rng.choice(["kill", "kill", "term"])])
+                child_death(c)
+            steps.append(["xsleep", 0, x, {"n": cfgx["workers"]}])
+            steps.append(["killworker", 0, x, rng.choice(cfgx["ids"]), rng.choice(["kill", "kill", "term"])])
             steps.append(["xwait", 0, x, {"raise": True}])     # the pool is observed once it has torn itself down
         elif ending == "broken_pool":
-            x, cfg, _ = execs[-1]
+            x, cfgx, _ = execs[-1]
             steps.append(["xcrash", 0, x])
-            if cfg["kind"] == "reusable":
+            if cfgx["kind"] == "reusable":
                 w = rng.choice([1, 2])
                 steps.append(["xnew", 0, x + 5, {"kind": "reusable", "workers": w,
                                                  "ids": [90 + j for j in range(w)], "replaces": x}])
@@ -167,19 +302,31 @@ class Prop(E3TreeProp):
             elif rng.random() < 0.5:
                 steps.append(["xshutdown", 0, x, {"wait": True}])
             for c in children:
-                steps.append(["exit", c, rng.choice(KILLISH + ("normal", "exc"))])
+                child_death(c)
             steps.append(["exit", 0, rng.choice(["normal", "normal", "exc"])])
+        elif ending == "finkill":
+            # the parent is SIGKILLed inside a finalizer (collection of one object; exit-time finalizers when it has
+            # no executor); its children and orphaned workers end afterwards
+            finkill(0, nx == 0 and not children)
+            order = list(children)
+            rng.shuffle(order)
+            for c in order:
+                child_death(c)
+            steps.append(["killorphans"])
         else:
-            x, cfg, _ = execs[-1]
+            x, cfgx, _ = execs[-1]
             steps.append(["xdispatch", 0, x])
             steps.append(["exit", 0, "kill"])
             order = list(children)
             rng.shuffle(order)
             for c in order:
-                steps.append(["exit", c, rng.choice(KILLISH + ("normal", "exc"))])
+                child_death(c)
             steps.append(["killorphans"])
         steps.append(["end"])
-        return {"steps": steps}
+        case = {"steps": steps}
+        if cfg:
+            case["cfg"] = cfg
+        return case
 
     # ------------------------------------------------------------------ model
     def _exec_state(self, case, upto):
@@ -235,10 +382,14 @@ class Prop(E3TreeProp):
             return [k]
         if k == "spawn":
             pairs = ",".join(f"{a}:{b}" for a, b in st[4]) or "-"
-            return [f"del {st[1]} {g}" for g in linger.get(st[1], [])] + [f"spawn {st[1]} {st[2]} {st[3]} {pairs}"]
+            imp = f" L{st[5][1]}" if len(st) > 5 and st[5] else ""
+            return ([f"del {st[1]} {g}" for g in linger.get(st[1], [])]
+                    + [f"spawn {st[1]} {st[2]} {st[3]} {pairs}{imp}"])
         if k == "new":
             return [f"new {st[1]} {st[2]} {NSEMS[st[3]]}"]
-        if k in ("del", "killnew"):
+        if k == "pnew":          # the delay (st[4]) is a configuration of the real side only
+            return [f"pnew {st[1]} {','.join(str(o) for o in st[2])} {NSEMS[st[3]]}"]
+        if k in ("del", "killnew", "killfin", "killexit"):
             return [" ".join(str(x) for x in st)]
         if k == "exit":
             p, how = st[1], st[2]
@@ -311,7 +462,7 @@ class Prop(E3TreeProp):
     @staticmethod
     def _mask(st, line):
         import re
-        if st[0] in XSTEPS or st[0] == "exit":
+        if st[0] in XSTEPS or st[0] in ("exit", "killfin", "killexit"):
             line = re.sub(r"trk=\S+ child=\S+ warn=\S+", "trk=- child=- warn=-", line)
         if st[0] == "killworker":
             # the pool is tearing itself down concurrently: observed at the following xwait
@@ -330,18 +481,33 @@ class Prop(E3TreeProp):
                 return f"step {st}: the child ended before it could run (start-up failed)"
             if act.get("ok") is False and st[0] not in ("xwait",):
                 return f"step {st}: raised {act.get('exc')}: {act.get('msg')}"
+            if st[0] == "pnew" and act.get("errors"):
+                return f"step {st}: creating a primitive in a thread of member {st[1]} raised {act['errors'][0]}"
+            created = {}
             if st[0] == "new":
-                names_of[(st[1], st[2])] = [n.lstrip("/") for n in act.get("names", [])]
+                created[(st[1], st[2])] = act.get("names", [])
+            elif st[0] == "pnew":
+                for ob in st[2]:
+                    created[(st[1], ob)] = (act.get("names_of") or {}).get(str(ob), [])
+            elif st[0] == "spawn" and o.get("import") is not None:
+                imp = o["import"]
+                if not imp.get("ok"):
+                    return (f"step {st}: creating a Lock at import time of the child's main module raised "
+                            f"{imp.get('exc')}: {imp.get('msg')}")
+                created[(st[2], st[5][1])] = imp.get("names", [])
+            for key, names in created.items():
+                names_of[key] = [n.lstrip("/") for n in names]
                 have = {n for v in o["sems"].values() for n in v}
-                missing = [n for n in names_of[(st[1], st[2])] if "sem." + n not in have]
-                if missing:
-                    return f"step {st}: created semaphores are not in /dev/shm: {missing}"
+                missing = [n for n in names_of[key] if "sem." + n not in have]
+                if missing or not names_of[key]:
+                    return (f"step {st}: semaphores of the new object {key[1]} of member {key[0]} are not in /dev/shm "
+                            f"(unlinked while their object is alive?): {missing}")
             if st[0] == "del" and (st[1], st[2]) in names_of:
                 have = {n for v in o["sems"].values() for n in v}
                 left = [n for n in names_of.pop((st[1], st[2])) if "sem." + n in have]
                 if left:
                     return f"step {st}: the owning object was collected but its semaphores are still there: {left}"
-            if st[0] == "exit" or (st[0] == "xwait" and st[3].get("raise")) or st[0] == "killnew":
+            if st[0] in ("exit", "killnew", "killfin", "killexit") or (st[0] == "xwait" and st[3].get("raise")):
                 for key in [k for k in names_of if k[0] == st[1]]:
                     names_of.pop(key)
             # an owner that is alive and still holds the object: its semaphores must not have been unlinked
@@ -366,7 +532,7 @@ class Prop(E3TreeProp):
         for st in steps:
             if st[0] == "exit" and st[2] in KILLISH:
                 abrupt = True
-            if st[0] in ("killnew",):
+            if st[0] in ("killnew", "killfin", "killexit"):
                 abrupt = True
         leaks = [t for t in leak_tokens(last.get("stderr")) if t.startswith("S")]
         if leaks and not abrupt:
@@ -384,6 +550,8 @@ class Prop(E3TreeProp):
         kinds = [s[0] for s in steps]
         if "xwait" in kinds and any(s[0] == "xwait" and s[3].get("raise") for s in steps):
             ks.append("ending=worker_crash")
+        elif any(s[0] in ("killfin", "killexit") and s[1] == 0 for s in steps):
+            ks.append("ending=killed_in_finalizer")
         elif "xdispatch" in kinds:
             ks.append("ending=sigkill_parent")
         elif "xcrash" in kinds:
@@ -401,6 +569,15 @@ class Prop(E3TreeProp):
                 ks.append("child-death=" + s[2])
             elif s[0] == "spawn" and s[4]:
                 ks.append("pickled-to-child")
+            elif s[0] == "killfin":
+                ks.append(f"killed-in-finalizer/k={min(s[3], 3)}{'+' if s[3] > 3 else ''}")
+            elif s[0] == "killexit":
+                ks.append("killed-in-exit-finalizers")
+            elif s[0] == "pnew":
+                ks.append("concurrent-first-use" + ("/delayed" if s[4] else "/natural"))
+            if s[0] == "spawn" and len(s) > 5 and s[5]:
+                ks.append("import-time-lock")
+        ks.append("warnings=" + (warn_cfg(case) or "default"))
         return ks
 
     def shrink_candidates(self, case):
@@ -409,13 +586,23 @@ class Prop(E3TreeProp):
             if s[0] in ("xrun", "del") or (s[0] == "new" and not any(
                     (t[0] == "del" and t[2] == s[2]) or (t[0] == "spawn" and any(a == s[2] for a, _ in t[4]))
                     for t in steps)):
-                yield {"steps": steps[:i] + steps[i + 1:]}
+                yield dict(case, steps=steps[:i] + steps[i + 1:])
 
     def attribute(self, case, out, bad, known):
         # D11-style finding: a SIGKILL forced between sem_open and REGISTER
         if any(s[0] == "killnew" for s in case["steps"]):
             for f in known:
                 if f.get("class") == "create-window" or "sem_open and REGISTER" in f.get("what", ""):
+                    return f["id"]
+        # a primitive created at import time of the main module of a loky_init_main child
+        if any(s[0] == "spawn" and len(s) > 5 and s[5] and s[5][0] == "lock" for s in case["steps"]):
+            for f in known:
+                if f.get("class") == IMPORT_OWNER_CLASS:
+                    return f["id"]
+        # warnings as errors + a process killed between sem_unlink and UNREGISTER (odd number of primitives)
+        if warn_cfg(case) and any(s[0] in ("killfin", "killexit") and s[-1] % 2 == 1 for s in case["steps"]):
+            for f in known:
+                if f.get("class") == SWEEP_WARN_CLASS:
                     return f["id"]
         return None
 
